@@ -350,16 +350,21 @@ pub struct Guard<'a, R: Read> {
     from: usize,
     last_u32_was_4: bool,
     pub fired: bool,
+    /// false: everything is passed through (used where a plain read of the same bytes succeeded: the lengths are
+    /// consistent there, and a reader that fetches byte vectors in one `read_exact` under a chunking medium issues 4-byte
+    /// requests in the middle of payloads, which this heuristic would mistake for length words - the false alarm the
+    /// property-preserving change BC20-1 raised)
+    pub active: bool,
 }
 impl<'a, R: Read> Guard<'a, R> {
     pub fn new(inner: R, data: &'a [u8]) -> Self {
         let from = pool_walk_end(data, true).min(pool_walk_end(data, false)).max(10);
-        Guard { inner, data, pos: 0, from, last_u32_was_4: false, fired: false }
+        Guard { inner, data, pos: 0, from, last_u32_was_4: false, fired: false, active: true }
     }
 }
 impl<R: Read> Read for Guard<'_, R> {
     fn read(&mut self, buf: &mut [u8]) -> std::io::Result<usize> {
-        if buf.len() == 4 && self.pos + 4 <= self.data.len() {
+        if self.active && buf.len() == 4 && self.pos + 4 <= self.data.len() {
             let p = self.pos;
             let v = u32::from_be_bytes([self.data[p], self.data[p + 1], self.data[p + 2], self.data[p + 3]]);
             if p >= self.from && !self.last_u32_was_4 && v as usize > self.data.len() - (p + 4) && !guard_off() {
@@ -1358,6 +1363,8 @@ impl Engine for C20 {
             let src = SimReader::new(&medium, &p.read_io);
             let delivered = src.delivered().to_vec();
             let mut g = Guard::new(src, &delivered);
+            // legal schedule over bytes a plain read accepted: nothing for the guard to protect from
+            g.active = !(legal && r0.ok().is_some());
             let res = no_panic(|| ClassFile::read(&mut g));
             let consumed = g.pos;
             if g.fired {
